@@ -384,6 +384,43 @@ def cli_info():
     return flags
 
 
+def tags_plumbing():
+    """process() hands model, kernel_shape and the splat of the effective model / block configuration to _out_files, which forwards
+    **kwargs to both metadata setters, which forward them to _set_metadata, which turns every item into a FUSE_<KEY> tag"""
+    fu = parse('fuse.py')
+    process = find_func(fu, 'RasterFuse', 'process')
+    ok_call = False
+    for c in calls_in(process):
+        if ast.unparse(c.func) == 'self._out_files':
+            kws = {k.arg: ast.unparse(k.value) for k in c.keywords if k.arg}
+            splats = [ast.unparse(k.value) for k in c.keywords if k.arg is None]
+            ok_call = ('model' in kws and 'kernel_shape' in kws and 'model_config' in splats and 'block_config' in splats)
+    # model_config / block_config handed on are the EFFECTIVE ones (rebuilt through create_*_config from the user's dict)
+    eff = {'model_config': False, 'block_config': False}
+    for s_ in ast.walk(process):
+        if isinstance(s_, ast.Assign) and len(s_.targets) == 1 and ast.unparse(s_.targets[0]) in eff:
+            v = ast.unparse(s_.value)
+            if 'create_' + ast.unparse(s_.targets[0]) in v:
+                eff[ast.unparse(s_.targets[0])] = True
+    of = find_func(fu, 'RasterFuse', '_out_files')
+    fwd = {'_set_corr_metadata': False, '_set_param_metadata': False}
+    for c in calls_in(of):
+        f = ast.unparse(c.func)
+        for name in fwd:
+            if f == 'self.' + name and any(k.arg is None and ast.unparse(k.value) == 'kwargs' for k in c.keywords):
+                fwd[name] = True
+    inner = True
+    for name in ('_set_corr_metadata', '_set_param_metadata'):
+        f = find_func(fu, 'RasterFuse', name)
+        inner &= any(ast.unparse(c.func) == 'self._set_metadata' and any(k.arg is None and ast.unparse(k.value) == 'kwargs' for k in c.keywords)
+                     for c in calls_in(f))
+    sm = find_func(fu, 'RasterFuse', '_set_metadata')
+    src = ast.unparse(sm)
+    tags = ('FUSE_' in src and 'kwargs.items()' in src and 'update_tags(**meta_dict)' in src and 'FUSE_PROC_CRS' in src
+            and 'FUSE_SRC_FILE' in src and 'FUSE_REF_FILE' in src and '**kwargs_meta_dict' in src)
+    return ok_call and all(eff.values()) and all(fwd.values()) and inner and tags
+
+
 def locks_ok():
     """each lock attribute is assigned exactly once, in __init__, from threading.Lock(); read_lock once per function"""
     ok = True
@@ -471,6 +508,8 @@ Definition opens : list (bool * bool) := {lst([f"({b(r[3])}, {b(r[4])})" for r i
 Definition cli_aborts : list bool := {lst([b(x) for x in cli])}.
 (* every lock is created exactly once (per object / per call) from threading.Lock() *)
 Definition locks_ok : bool := {b(locks_ok())}.
+(* process -> _out_files -> _set_corr/param_metadata -> _set_metadata, all forwarding kwargs: every effective setting becomes a FUSE_KEY tag *)
+Definition tags_plumbing : bool := {b(tags_plumbing())}.
 '''
     return text
 
